@@ -178,7 +178,9 @@ def ensure_tsan(check, inc):
 
 def run_tsan(check, res, tier):
     threads, iters, reps = (4, 20000, 2) if tier == "quick" else (8, 150000, 6)
-    env = dict(os.environ, TSAN_OPTIONS="halt_on_error=0:report_signal_unsafe=0:history_size=4")
+    env = dict(os.environ, TSAN_OPTIONS="halt_on_error=1:report_signal_unsafe=0:history_size=4")
+    # halt_on_error=1: the first report is the replay; going on with a raced (possibly corrupted) structure can hang
+    tmo = 150 if tier == "quick" else 900
 
     def one(k):
         exe = os.path.join(check.BUILD, "bin", "tsan_%d" % k)
@@ -187,7 +189,7 @@ def run_tsan(check, res, tier):
         reports = []
         for r in range(reps):
             try:
-                p = subprocess.run([exe, str(threads), str(iters)], capture_output=True, text=True, timeout=600, env=env)
+                p = subprocess.run([exe, str(threads), str(iters)], capture_output=True, text=True, timeout=tmo, env=env)
             except subprocess.TimeoutExpired:
                 return k, ["timeout: the multi-thread driver did not terminate (deadlock?)"], "timeout"
             if "ThreadSanitizer" in p.stderr or p.returncode != 0:
@@ -220,9 +222,39 @@ def setup(check):
         return ok, lg
 
 
+def lock_wrapper(inc):
+    """cappuccino::mutex<thread_safe::yes> (lock.hpp), translated: lock() must be exactly m_lock.lock() and unlock()
+    exactly m_lock.unlock() on the one non-static lock member, under `if constexpr (thread_safe_type == yes)`
+    -> (ok, detail)"""
+    import cpp2coq as c
+    try:
+        ms = c.class_methods(c.clang_objs(inc, "mutex", "template class cappuccino::mutex<cappuccino::thread_safe::yes>;"))
+    except Exception as e:      # noqa
+        return False, "clang: %s" % e
+    for m in ("lock", "unlock"):
+        if m not in ms or len(ms[m]) != 1:
+            return False, "mutex::%s not found" % m
+        ps, rt, body = ms[m][0]
+        got = " ".join(c.show(x) for x in body["a"])
+        cond = "(bin == (?SubstNonTypeTemplateParmExpr (?NonTypeTemplateParmDecl thread_safe_type) (?CStyleCastExpr (int 1))) (ref yes))"
+        want = "(if %s (block (mcall %s (field m_lock))))" % (cond, m)
+        if ps or got != want:
+            return False, "mutex<thread_safe::yes>::%s() is %s, expected %s" % (m, got[:400], want)
+    if list(ms.get("__fieldinit__", {})) != ["m_lock"]:
+        return False, "members of the wrapper: %s" % list(ms.get("__fieldinit__", {}))
+    return True, "lock() = m_lock.lock(), unlock() = m_lock.unlock()"
+
+
 def run(prop, tier, seed, res, check):
     inc = os.path.join(check.REPO, "inc")
     res.setdefault("conc_violations", [])
+    okw, dw = lock_wrapper(inc)
+    res["obligations"] += 1
+    res["extra"]["lock_wrapper"] = dw
+    if okw:
+        res["discharged"] += 1
+    else:
+        res["broken"].append(dict(what="lock.hpp: the mutex wrapper is no longer a plain lock()/unlock() of its std::mutex", detail=dw))
     g = regen(check, res, inc)
     failed = []
     if g is not None:
